@@ -66,7 +66,8 @@ def Rrhs(st, rhs, sol, j):
 
 def mk_stack(state, name, n, nd, mark0):
     l = SList(fresh(name + '_ref'), n, fn=sym_elem_fn('optarr%d' % nd, state), kind='optarr%d' % nd)
-    return l
+    # environments handed to a helper are sesquilinear: (ket rank, operator rank, bra rank) resp. (rhs rank, bra rank)
+    return tag_list(l, ('K', 'O', 'B') if nd == 3 else ('O', 'B'))
 
 
 def mk_solution(state, op, mark0, fresh_obj=True):
@@ -86,6 +87,61 @@ def square(op):
     return same_ints(op.row_dims, op.col_dims, zi(op.order))
 
 
+# ghost index roles (npmodel.ROLE_PAIRS): which leg of <bra| A |ket> an axis of a core / an environment belongs to
+ROLES_OP, ROLES_SOL, ROLES_RHS = ('O', 'r', 'c', 'O'), ('K', 'k', '1', 'K'), ('O', 'r', '1', 'O')
+ROLES_ENV_OP, ROLES_ENV_RHS = ('K', 'O', 'B'), ('O', 'B')
+
+
+def tag_list(lst, roles):
+    """every element of the list (an array, possibly Optional) carries the given index roles"""
+    if lst.items is not None:
+        lst.to_fn()
+    old = lst.fn
+
+    def f(j):
+        v = old(j)
+        a = v.val if isinstance(v, SOpt) else v
+        if isinstance(a, SArr) and len(a.shape) >= len(roles):
+            a.roles = tuple(roles) + (None,) * (len(a.shape) - len(roles))
+        return v
+    lst.fn = f
+    return lst
+
+
+def tag_tt(t, roles):
+    if isinstance(t, STT) and isinstance(t.f.get('cores'), SList):
+        tag_list(t.cores, roles)
+    return t
+
+
+def with_roles(a, roles):
+    a.roles = tuple(roles)
+    return a
+
+
+def merged_ok(res, roles):
+    """the matrix / vector was obtained by merging exactly these legs, in this order (rows first)"""
+    m = res.__dict__.get('merged_from') if isinstance(res, SArr) else None
+    if m is None:
+        if getattr(res, 'at_call_site', False):
+            return True
+        raise Unsupported('the index roles of a micro system were lost (an operation outside the role calculus was applied)')
+    return tuple(m) == tuple(roles)
+
+
+def roles_ok(v, roles):
+    """the (defined) entry carries exactly these roles; an entry whose axes all have length 1 (boundary) fits every role"""
+    d_, a = opt(v)
+    if a is None:
+        return True
+    if all(z3.is_int_value(z3.simplify(x)) and z3.simplify(x).as_long() == 1 for x in a.shape):
+        return True
+    r = a.__dict__.get('roles')
+    if r is None:
+        raise Unsupported('the index roles of an environment were lost (an operation outside the role calculus was applied)')
+    return tuple(r[:len(roles)]) == tuple(roles)
+
+
 class _Helper(Contract):
     file, cls = FILE, None
     auto_valid = False      # the working solution is inside a dirty window: the helpers state exactly which cores are consistent
@@ -99,6 +155,8 @@ class _Helper(Contract):
             import types
             op = types.SimpleNamespace(order=fresh('order'))      # the helper has no operator parameter: only the order is shared
         sol = mk_solution(state, op, m0)
+        tag_tt(op, ROLES_OP)
+        tag_tt(sol, ROLES_SOL)
         i = fresh('i')
         return op, sol, i
 
@@ -151,6 +209,8 @@ class _StackHelper(_Helper):
         yield 'other-slots-unchanged', FA(0, n, lambda j: z3.Implies(j != i, self.same_entry(lst_get(st, j), lst_get(st0, j))))
         d_, a = opt(lst_get(st, i))
         yield 'slot-buffer-fresh', a is not None and a.buf >= S.mark0
+        # the new environment is again <bra| ... |ket>: conjugated cores on the bra legs, plain cores on the ket legs
+        yield 'sesquilinear-roles', z3.BoolVal(roles_ok(lst_get(st, i), self.env_roles))
 
     @staticmethod
     def same_entry(a, b):
@@ -169,7 +229,7 @@ class _StackHelper(_Helper):
         st = A[self.stack_name]
         i = zi(A['i'])
         nd = self.nd
-        arr = SArr([fresh('st') for _ in range(nd)], fresh('stcx', 'bool'), state.alloc(), True)
+        arr = with_roles(SArr([fresh('st') for _ in range(nd)], fresh('stcx', 'bool'), state.alloc(), True), self.env_roles)
         st.set(i, arr)
         return NONE
 
@@ -177,7 +237,7 @@ class _StackHelper(_Helper):
 @register
 class StackLeftOp(_StackHelper):
     name, func = 'fn:__construct_stack_left_op', '__construct_stack_left_op'
-    stack_name, nd = 'stack_left_op', 3
+    stack_name, nd, env_roles = 'stack_left_op', 3, ROLES_ENV_OP
 
     def setup(self, ex, state, inst):
         op, sol, i = self.base(ex, state)
@@ -196,7 +256,7 @@ class StackLeftOp(_StackHelper):
 @register
 class StackRightOp(_StackHelper):
     name, func = 'fn:__construct_stack_right_op', '__construct_stack_right_op'
-    stack_name, nd = 'stack_right_op', 3
+    stack_name, nd, env_roles = 'stack_right_op', 3, ROLES_ENV_OP
 
     def setup(self, ex, state, inst):
         op, sol, i = self.base(ex, state)
@@ -217,11 +277,11 @@ class StackRightOp(_StackHelper):
 @register
 class StackLeftRhs(_StackHelper):
     name, func = 'fn:__construct_stack_left_rhs', '__construct_stack_left_rhs'
-    stack_name, nd = 'stack_left_rhs', 2
+    stack_name, nd, env_roles = 'stack_left_rhs', 2, ROLES_ENV_RHS
 
     def setup(self, ex, state, inst):
         op, sol, i = self.base(ex, state)
-        rhs = mk_tt(state, 'right_hand_side', ex.ctx.mark0, order=op.order)
+        rhs = tag_tt(mk_tt(state, 'right_hand_side', ex.ctx.mark0, order=op.order), ROLES_RHS)
         return {'i': i, 'stack_left_rhs': mk_stack(state, 'stack_left_rhs', zi(op.order), 2, ex.ctx.mark0), 'right_hand_side': rhs, 'solution': sol}
 
     def requires(self, S):
@@ -238,11 +298,11 @@ class StackLeftRhs(_StackHelper):
 @register
 class StackRightRhs(_StackHelper):
     name, func = 'fn:__construct_stack_right_rhs', '__construct_stack_right_rhs'
-    stack_name, nd = 'stack_right_rhs', 2
+    stack_name, nd, env_roles = 'stack_right_rhs', 2, ROLES_ENV_RHS
 
     def setup(self, ex, state, inst):
         op, sol, i = self.base(ex, state)
-        rhs = mk_tt(state, 'right_hand_side', ex.ctx.mark0, order=op.order)
+        rhs = tag_tt(mk_tt(state, 'right_hand_side', ex.ctx.mark0, order=op.order), ROLES_RHS)
         return {'i': i, 'stack_right_rhs': mk_stack(state, 'stack_right_rhs', zi(op.order), 2, ex.ctx.mark0), 'right_hand_side': rhs, 'solution': sol}
 
     def requires(self, S):
@@ -282,12 +342,16 @@ class MicroMatrixAls(_Helper):
             n = lst_get(sol.ranks, i) * lst_get(op.row_dims, i) * lst_get(sol.ranks, i + 1)
             yield 'shape', z3.And(res.shape[0] == n, res.shape[1] == lst_get(sol.ranks, i) * lst_get(op.col_dims, i) * lst_get(sol.ranks, i + 1))
             yield 'fresh', res.buf >= S.mark0
+            # M = P^H A P: rows are the bra legs (conjugated cores, operator rows), columns the ket legs
+            yield 'sesquilinear-roles', z3.BoolVal(merged_ok(res, ('B', 'r', 'B', 'K', 'c', 'K')))
 
     def canary(self, S, res):
         return res.shape[0] == res.shape[1] + 1
 
     def effect(self, ex, state, A, inst, line):
-        return SArr([fresh('mm0'), fresh('mm1')], fresh('mmcx', 'bool'), state.alloc(), True)
+        r = SArr([fresh('mm0'), fresh('mm1')], fresh('mmcx', 'bool'), state.alloc(), True)
+        r.at_call_site = True
+        return r
 
 
 @register
@@ -300,7 +364,7 @@ class MicroRhsAls(_Helper):
     def setup(self, ex, state, inst):
         op, sol, i = self.base(ex, state)
         d = zi(op.order)
-        rhs = mk_tt(state, 'right_hand_side', ex.ctx.mark0, order=op.order)
+        rhs = tag_tt(mk_tt(state, 'right_hand_side', ex.ctx.mark0, order=op.order), ROLES_RHS)
         return {'i': i, 'stack_left_rhs': mk_stack(state, 'sl', d, 2, ex.ctx.mark0), 'stack_right_rhs': mk_stack(state, 'sr', d, 2, ex.ctx.mark0), 'right_hand_side': rhs, 'solution': sol}
 
     def requires(self, S):
@@ -316,12 +380,15 @@ class MicroRhsAls(_Helper):
         if ok:
             yield 'shape', z3.And(res.shape[0] == lst_get(sol.ranks, i) * lst_get(rhs.row_dims, i) * lst_get(sol.ranks, i + 1), res.shape[1] == 1)
             yield 'fresh', res.buf >= S.mark0
+            yield 'sesquilinear-roles', z3.BoolVal(merged_ok(res, ('B', 'r', 'B')))         # P^H b: bra legs only
 
     def canary(self, S, res):
         return res.shape[1] == 2
 
     def effect(self, ex, state, A, inst, line):
-        return SArr([fresh('mr0'), fresh('mr1')], fresh('mrcx', 'bool'), state.alloc(), True)
+        r = SArr([fresh('mr0'), fresh('mr1')], fresh('mrcx', 'bool'), state.alloc(), True)
+        r.at_call_site = True
+        return r
 
 
 @register
@@ -543,12 +610,15 @@ class MicroMatrixMals(_Helper):
         if ok:
             yield 'shape', z3.And(res.shape[0] == self._n(S, op.row_dims), res.shape[1] == self._n(S, op.col_dims))
             yield 'fresh', res.buf >= S.mark0
+            yield 'sesquilinear-roles', z3.BoolVal(merged_ok(res, ('B', 'r', 'r', 'B', 'K', 'c', 'c', 'K')))
 
     def canary(self, S, res):
         return res.shape[0] == res.shape[1] + 1
 
     def effect(self, ex, state, A, inst, line):
-        return SArr([fresh('mm0'), fresh('mm1')], fresh('mmcx', 'bool'), state.alloc(), True)
+        r = SArr([fresh('mm0'), fresh('mm1')], fresh('mmcx', 'bool'), state.alloc(), True)
+        r.at_call_site = True
+        return r
 
 
 @register
@@ -561,7 +631,7 @@ class MicroRhsMals(_Helper):
     def setup(self, ex, state, inst):
         op, sol, i = self.base(ex, state)
         d = zi(op.order)
-        rhs = mk_tt(state, 'right_hand_side', ex.ctx.mark0, order=op.order)
+        rhs = tag_tt(mk_tt(state, 'right_hand_side', ex.ctx.mark0, order=op.order), ROLES_RHS)
         return {'i': i, 'stack_left_rhs': mk_stack(state, 'sl', d, 2, ex.ctx.mark0), 'stack_right_rhs': mk_stack(state, 'sr', d, 2, ex.ctx.mark0), 'right_hand_side': rhs, 'solution': sol}
 
     def requires(self, S):
@@ -577,12 +647,15 @@ class MicroRhsMals(_Helper):
         if ok:
             yield 'shape', z3.And(res.shape[0] == lst_get(sol.ranks, i) * lst_get(rhs.row_dims, i) * lst_get(rhs.row_dims, i + 1) * lst_get(sol.ranks, i + 2), res.shape[1] == 1)
             yield 'fresh', res.buf >= S.mark0
+            yield 'sesquilinear-roles', z3.BoolVal(merged_ok(res, ('B', 'r', 'r', 'B')))
 
     def canary(self, S, res):
         return res.shape[1] == 2
 
     def effect(self, ex, state, A, inst, line):
-        return SArr([fresh('mr0'), fresh('mr1')], fresh('mrcx', 'bool'), state.alloc(), True)
+        r = SArr([fresh('mr0'), fresh('mr1')], fresh('mrcx', 'bool'), state.alloc(), True)
+        r.at_call_site = True
+        return r
 
 
 def cap_ok(rank, mr):
